@@ -46,6 +46,7 @@ theorem check_flag_is_config (I : ObjIface σ) (cfg : Config) (ops : List Op)
   have := runT_inv I (fun s => s.cfg = cfg ∧ AllFdt (fun f => f.check = cfg.expCheck) s) (fun _ => True)
     (fun s op s' r evs hinv _ h => by
       have := step_all I (fun f => f.check = cfg.expCheck) s s' op r evs
+        (fun f v hf => by rw [(noteFti_fields f v).2.2.2.2.2.2.2.2.1]; exact hf)
         (fun p now ans id _ _ => by rw [hinv.1]; rfl)
         (fun p now ans _ _ _ _ f hf => by rw [(push_fields I f p now ans).2.2.1]; exact hf)
         (fun f f' hf hu => by rw [(updateExpired_fields hu).2.2.1]; exact hf)
@@ -99,6 +100,9 @@ theorem check_disabled_ignores (I : ObjIface σ) (cfg : Config) (hc : cfg.expChe
     (fun _ => True)
     (fun s op s' r evs hinv _ h => by
       have := step_all I (fun f => f.check = false ∧ f.st ≠ .expired) s s' op r evs
+        (fun f v hf => by
+          have hn := noteFti_fields f v
+          exact ⟨by rw [hn.2.2.2.2.2.2.2.2.1]; exact hf.1, by rw [hn.2.2.1]; exact hf.2⟩)
         (fun p now ans id _ _ => by rw [hinv.1, hc]; simp [FdtRecv.new])
         (fun p now ans _ _ _ _ f hf => by
           have := push_fields I f p now ans
@@ -147,6 +151,7 @@ theorem no_sct_uses_own_clock (I : ObjIface σ) (cfg : Config) (ops : List Op)
     (fun op => ∀ p now ans, op = Op.data (.pkt p) now ans → p.sct = none)
     (fun s op s' r evs hinv hG h => by
       exact (step_all I (fun f => f.offset = none) s s' op r evs
+        (fun f v hf => by rw [(noteFti_fields f v).2.2.2.2.2.2.1]; exact hf)
         (fun p now ans id _ _ => by simp [FdtRecv.new])
         (fun p now ans hop _ _ _ f hf => by
           rw [(push_fields I f p now ans).1, hG p now ans hop]
@@ -174,6 +179,9 @@ theorem no_sct_uses_own_clock_per_instance (I : ObjIface σ) (cfg : Config) (ops
     (fun op => ∀ p now ans, op = Op.data (.pkt p) now ans → p.toi = 0 → p.fdtId = some i → p.sct = none)
     (fun s op s' r evs hinv hG h => by
       have := step_allK I (fun f => f.fdtId = i → f.offset = none) s s' op r evs
+        (fun f v hf hi => by
+          have hn := noteFti_fields f v
+          rw [hn.2.2.2.2.2.2.1]; exact hf (by rw [← hn.1]; exact hi))
         (fun p now ans id _ _ _ => by simp [FdtRecv.new])
         (fun p now ans hop htoi id hid f hfid hf hpi => by
           have hp := push_fields I f p now ans
